@@ -16,6 +16,7 @@
 #include <thread>
 #include <vector>
 #include <unordered_map>
+#include "stress_watchdog.h"
 
 #ifndef W_OBJ
 #define W_OBJ 0
@@ -148,7 +149,8 @@ int main(int argc, char ** argv)
 	unsigned seed = (unsigned)std::strtoul(argv[4], 0, 10);
 	long n = std::atol(argv[5]);
 	(void)g_rng;
-	for(long i = 0; i < n; ++i) execute(i, seed + (unsigned)i);
+	startStressWatchdog(g_out);
+	for(long i = 0; i < n; ++i) { execute(i, seed + (unsigned)i); ++g_stressProgress; }
 	std::fclose(g_out);
 	std::fprintf(stderr, "STATS {\"executions\":%ld,\"stuck\":0,\"exhausted\":0}\n", n);
 	return 0;
